@@ -440,4 +440,10 @@ def run(ctx):
     no_wrap(ctx)
     import layout as _layout
     _layout.tile_words(ctx, 'Q5')          # the tile ids that lookup, slice and image all consume
+    # the tileset chunk itself: tile count, tile size and the embedded pixels are read where the format puts them - also when the chunk
+    # additionally links an external file (seed C08-j skipped the embedded tiles then and the sprite no longer loads)
+    import spec as _SP
+    _spec = _SP.load_spec()
+    _bnd, _ = _layout.check_layout(ctx, _spec, 'asefile::tileset::Tileset::parse_chunk', 'TILESET', rule='Q4')
+    _layout.check_stores(ctx, _spec, 'asefile::tileset::Tileset::parse_chunk', 'TILESET', _bnd, rule='Q4')
     ctx.samples = [i for i in ctx.instances][:16]
